@@ -21,6 +21,8 @@ mod rng;
 mod server;
 mod symbol_def;
 mod utils;
+#[cfg(parol_verif)]
+mod verif_gate;
 
 extern crate clap;
 extern crate parol_runtime;
